@@ -1,4 +1,528 @@
-import PieModel.Build.Pie
+/-
+C14 — the in-memory map resource on top of the type-indexed state collection: read-your-writes,
+no aliasing between key types / resource types, `get_or_set_default`, `get`/`set`, the equality
+checker, and a refinement of arbitrary operation sequences to a plain `Nat → Option Int` map.
+
+One statement of the property needs a well-formedness hypothesis in the model: a stored
+`HashMap` is modelled as an association list, and removing a key (`write … none`) from a list
+with a *duplicated* key would leave the second binding visible.  A `HashMap` has no duplicate
+keys; the hypothesis `MapRes.WF` says exactly that, it holds for the empty state and is preserved
+by every operation (`C14_wf_*`).  See `C14_read_write_corrected` and the counterexample below it.
+-/
+import PieModel.Lib.MapResLemmas
+
 namespace PieModel
-theorem C14_placeholder : True := trivial
+
+open MapRes
+
+/-! ### read your writes -/
+
+/-- Insertion: unconditional. -/
+theorem C14_read_write_some (m : TMap) (k key : Nat) (x : Int) :
+    (read (write m k key (some x)) k key).2 = some x := by
+  rw [read_snd, slotMap_write_self, aget_writeMap_some]; simp
+
+/-- Insertion or removal, in a state whose stored maps have no duplicate keys. -/
+theorem C14_read_write_corrected (m : TMap) (h : WF m) (k key : Nat) (v : Option Int) :
+    (read (write m k key v) k key).2 = v := by
+  rw [read_snd, slotMap_write_self, aget_writeMap _ (h.slot k)]; simp
+
+/-- The statement without `WF` is false for removal in the model: with a duplicated key in the
+association list, the second binding shows after the first is removed. (Not a state the Rust
+code can reach: the stored value is a `HashMap`.) -/
+example : (read (write [(0, .map 0 [(1, 5), (1, 6)])] 0 1 none) 0 1).2 = some 6 := by decide
+
+/-- Other keys of the same key type are unaffected (unconditional). -/
+theorem C14_read_write_other (m : TMap) (k key key' : Nat) (v : Option Int) (hne : key' ≠ key) :
+    (read (write m k key v) k key').2 = (read m k key').2 := by
+  rw [read_snd, read_snd, slotMap_write_self, aget_writeMap_ne _ (Ne.symm hne)]
+
+/-- The last write to a key wins. -/
+theorem C14_read_write_write (m : TMap) (h : WF m) (k key : Nat) (v1 v2 : Option Int) :
+    (read (write (write m k key v1) k key v2) k key).2 = v2 :=
+  C14_read_write_corrected _ (h.write k key v1) k key v2
+
+/-! ### well-formedness is an invariant -/
+
+theorem C14_wf_empty : WF [] := WF.nil
+theorem C14_wf_write {m : TMap} (h : WF m) (k key : Nat) (v : Option Int) : WF (write m k key v) :=
+  h.write k key v
+theorem C14_wf_read {m : TMap} (h : WF m) (k key : Nat) : WF (read m k key).1 := h.read k key
+theorem C14_wf_set {m : TMap} (h : WF m) (r : Nat) (d : Dyn) (hd : d.WF) : WF (set m r d) :=
+  h.set r d hd
+theorem C14_wf_getOrSetDefault {m : TMap} (h : WF m) (r sty : Nat) :
+    WF (getOrSetDefault m r sty).1 := h.getOrSetDefault r sty
+
+/-! ### isolation between key types / resource types -/
+
+/-- Everything observable about resource type `r` is determined by its own slot. -/
+theorem C14_observations_of_slot {m1 m2 : TMap} {r : Nat} (h : aget m1 r = aget m2 r) :
+    getBoxed m1 r = getBoxed m2 r ∧
+    (∀ sty, get m1 r sty = get m2 r sty) ∧
+    (∀ sty, (getOrSetDefault m1 r sty).2 = (getOrSetDefault m2 r sty).2) ∧
+    (∀ key, (read m1 r key).2 = (read m2 r key).2) ∧
+    (∀ key s, (check m1 r key s).2 = (check m2 r key s).2) := by
+  have hread : ∀ key, (read m1 r key).2 = (read m2 r key).2 := by
+    intro key; rw [read_snd, read_snd, slotMap_congr h]
+  refine ⟨h, get_congr h, ?_, hread, ?_⟩
+  · intro sty
+    simp only [getOrSetDefault, h]
+    cases aget m2 r with
+    | none => rfl
+    | some d => by_cases hd : d.ty = sty <;> simp [hd]
+  · intro key s
+    show decide ((read m1 r key).2 = s) = decide ((read m2 r key).2 = s)
+    rw [hread]
+
+theorem C14_write_isolated (m : TMap) (k k' key : Nat) (v : Option Int) (hne : k ≠ k') :
+    getBoxed (write m k key v) k' = getBoxed m k' ∧
+    (∀ sty, get (write m k key v) k' sty = get m k' sty) ∧
+    (∀ key', (read (write m k key v) k' key').2 = (read m k' key').2) := by
+  have h : aget (write m k key v) k' = aget m k' := by rw [aget_write]; simp [hne]
+  have := C14_observations_of_slot h
+  exact ⟨this.1, this.2.1, this.2.2.2.1⟩
+
+theorem C14_set_isolated (m : TMap) (r r' : Nat) (d : Dyn) (hne : r ≠ r') :
+    getBoxed (set m r d) r' = getBoxed m r' ∧
+    (∀ sty, get (set m r d) r' sty = get m r' sty) ∧
+    (∀ key', (read (set m r d) r' key').2 = (read m r' key').2) := by
+  have h : aget (set m r d) r' = aget m r' := by rw [aget_set]; simp [hne]
+  have := C14_observations_of_slot h
+  exact ⟨this.1, this.2.1, this.2.2.2.1⟩
+
+theorem C14_getOrSetDefault_isolated (m : TMap) (r r' sty : Nat) (hne : r ≠ r') :
+    getBoxed (getOrSetDefault m r sty).1 r' = getBoxed m r' ∧
+    (∀ sty', get (getOrSetDefault m r sty).1 r' sty' = get m r' sty') ∧
+    (∀ key', (read (getOrSetDefault m r sty).1 r' key').2 = (read m r' key').2) := by
+  have h : aget (getOrSetDefault m r sty).1 r' = aget m r' := by
+    rw [aget_getOrSetDefault]; simp [hne]
+  have := C14_observations_of_slot h
+  exact ⟨this.1, this.2.1, this.2.2.2.1⟩
+
+theorem C14_read_isolated (m : TMap) (k k' key : Nat) (hne : k ≠ k') :
+    getBoxed (read m k key).1 k' = getBoxed m k' ∧
+    (∀ sty, get (read m k key).1 k' sty = get m k' sty) ∧
+    (∀ key', (read (read m k key).1 k' key').2 = (read m k' key').2) := by
+  have h : aget (read m k key).1 k' = aget m k' := by rw [aget_read]; simp [hne]
+  have := C14_observations_of_slot h
+  exact ⟨this.1, this.2.1, this.2.2.2.1⟩
+
+/-- Keys of different key types never alias, even if the key values coincide. -/
+theorem C14_no_alias (m : TMap) (k k' key : Nat) (v : Option Int) (hne : k ≠ k') :
+    (read (write m k key v) k' key).2 = (read m k' key).2 :=
+  (C14_write_isolated m k k' key v hne).2.2 key
+
+/-! ### `get_or_set_default`, `get`, `set` -/
+
+/-- Keeps a stored value of the requested type. -/
+theorem C14_getOrSetDefault_keep (m : TMap) (r sty : Nat) (d : Dyn) (h : get m r sty = some d) :
+    getOrSetDefault m r sty = (m, d) := getOrSetDefault_of_get_some h
+
+/-- Otherwise (absent, or of another type) returns the default and replaces exactly that slot. -/
+theorem C14_getOrSetDefault_default (m : TMap) (r sty : Nat) (h : get m r sty = none) :
+    (getOrSetDefault m r sty).2 = Dyn.default sty ∧
+    (getOrSetDefault m r sty).1 = set m r (Dyn.default sty) ∧
+    getBoxed (getOrSetDefault m r sty).1 r = some (Dyn.default sty) ∧
+    ∀ r', r' ≠ r → getBoxed (getOrSetDefault m r sty).1 r' = getBoxed m r' := by
+  rw [getOrSetDefault_of_get_none h]
+  refine ⟨rfl, rfl, ?_, ?_⟩
+  · show aget (aset m r _) r = _
+    rw [aget_aset]; simp
+  · intro r' hne
+    show aget (aset m r _) r' = aget m r'
+    rw [aget_aset]; simp [Ne.symm hne]
+
+theorem C14_get_getOrSetDefault (m : TMap) (r sty : Nat) :
+    get (getOrSetDefault m r sty).1 r sty = some (getOrSetDefault m r sty).2 := by
+  rw [get_eq_some_iff, aget_getOrSetDefault]
+  exact ⟨by simp, getOrSetDefault_snd_ty m r sty⟩
+
+theorem C14_getOrSetDefault_ty (m : TMap) (r sty : Nat) : (getOrSetDefault m r sty).2.ty = sty :=
+  getOrSetDefault_snd_ty m r sty
+
+theorem C14_getOrSetDefault_idem (m : TMap) (r sty : Nat) :
+    getOrSetDefault (getOrSetDefault m r sty).1 r sty = getOrSetDefault m r sty :=
+  getOrSetDefault_of_get_some (C14_get_getOrSetDefault m r sty)
+
+theorem C14_get_set (m : TMap) (r : Nat) (d : Dyn) : get (set m r d) r d.ty = some d := by
+  rw [get_eq_some_iff, aget_set]; simp
+
+theorem C14_get_set_other_type (m : TMap) (r : Nat) (d : Dyn) (sty : Nat) (h : sty ≠ d.ty) :
+    get (set m r d) r sty = none := by
+  rw [get_eq_none_iff, aget_set]
+  intro d' hd'
+  simp at hd'; subst hd'
+  exact Ne.symm h
+
+theorem C14_getBoxed_set (m : TMap) (r : Nat) (d : Dyn) : getBoxed (set m r d) r = some d := by
+  show aget (set m r d) r = some d
+  rw [aget_set]; simp
+
+theorem C14_get_eq_getBoxed (m : TMap) (r sty : Nat) :
+    get m r sty = (getBoxed m r).filter (fun d => d.ty = sty) := by
+  unfold MapRes.get getBoxed
+  cases aget m r with
+  | none => rfl
+  | some d => by_cases h : d.ty = sty <;> simp [h, Option.filter]
+
+/-! ### reads do not change what later reads return -/
+
+/-- A read may materialise an empty map in the slot of its key type, nothing else. -/
+theorem C14_read_state (m : TMap) (k key : Nat) :
+    (read m k key).1 = m ∨
+    (get m k (2 + k) = none ∧ (read m k key).1 = set m k (.map k []) ∧ (read m k key).2 = none) := by
+  rw [read_eq, globalMap_fst]
+  cases hg : get m k (2 + k) with
+  | some d => left; rw [getOrSetDefault_of_get_some hg]
+  | none =>
+    right
+    rw [getOrSetDefault_of_get_none hg, Dyn.default_map]
+    refine ⟨rfl, rfl, ?_⟩
+    rw [get_eq_none_iff] at hg
+    cases ha : aget m k with
+    | none => simp [slotMap_of_aget_none ha]
+    | some d => simp [slotMap_of_ty_ne ha (hg d ha)]
+
+theorem C14_read_read (m : TMap) (k key k' key' : Nat) :
+    (read (read m k key).1 k' key').2 = (read m k' key').2 := by
+  by_cases h : k = k'
+  · subst h; rw [read_snd, read_snd, slotMap_read_self]
+  · exact (C14_read_isolated m k k' key h).2.2 key'
+
+theorem C14_read_read_same (m : TMap) (k key key' : Nat) :
+    (read (read m k key).1 k key').2 = (read m k key').2 := C14_read_read m k key k key'
+
+/-- After one read of key type `k`, further reads of `k` do not change the state at all. -/
+theorem C14_read_state_idem (m : TMap) (k key key' : Nat) :
+    (read (read m k key).1 k key').1 = (read m k key).1 := by
+  have hg : MapRes.get (read m k key).1 k (2 + k) = some (.map k (slotMap m k)) := by
+    rw [get_eq_some_iff, aget_read]; simp [Dyn.ty]
+  rw [read_eq (read m k key).1, globalMap_fst, getOrSetDefault_of_get_some hg]
+
+/-! ### the equality checker -/
+
+theorem C14_check_iff (m : TMap) (k key : Nat) (s : Option Int) :
+    (check m k key s).2 = true ↔ (read m k key).2 = s := by
+  show decide ((read m k key).2 = s) = true ↔ _
+  exact decide_eq_true_iff
+
+/-- `stamp`, `stamp_reader`, `stamp_writer` all stamp with the current value (one model function:
+the three routes agree by construction). -/
+theorem C14_stamp_eq_read (m : TMap) (k key : Nat) : stamp m k key = read m k key := rfl
+
+theorem C14_check_state (m : TMap) (k key : Nat) (s : Option Int) :
+    (check m k key s).1 = (read m k key).1 := rfl
+
+/-- Consistent exactly when the current value or absence equals the stamped one. -/
+theorem C14_check_stamp_iff (m m' : TMap) (k key : Nat) :
+    (check m' k key (stamp m k key).2).2 = true ↔ (read m' k key).2 = (read m k key).2 :=
+  C14_check_iff m' k key _
+
+theorem C14_check_reflexive (m : TMap) (k key : Nat) :
+    (check (stamp m k key).1 k key (stamp m k key).2).2 = true := by
+  rw [C14_check_iff, C14_stamp_eq_read, C14_read_read_same]
+
+/-- A stamp taken before a write of a different value is inconsistent afterwards, one of an equal
+value stays consistent. -/
+theorem C14_check_after_write (m : TMap) (h : WF m) (k key : Nat) (v : Option Int) :
+    (check (write m k key v) k key (stamp m k key).2).2 = true ↔ v = (read m k key).2 := by
+  rw [C14_check_iff, C14_read_write_corrected m h]; rfl
+
+/-! ### refinement to a plain map -/
+
+namespace MapRes
+
+/-- The abstract content for key type `k`. -/
+def absMap (m : TMap) (k : Nat) : Nat → Option Int := fun key => (read m k key).2
+
+/-- Point update of a plain map. -/
+def upd (f : Nat → Option Int) (key : Nat) (v : Option Int) : Nat → Option Int :=
+  fun x => if key = x then v else f x
+
+def emptyMap : Nat → Option Int := fun _ => none
+
+theorem absMap_eq (m : TMap) (k : Nat) : absMap m k = aget (slotMap m k) := by
+  funext key; exact read_snd m k key
+
+/-- Operations on the state collection and the map resources living in it. -/
+inductive MOp
+  | write (k key : Nat) (v : Option Int)
+  | read (k key : Nat)
+  | check (k key : Nat) (s : Option Int)
+  | set (r : Nat) (d : Dyn)
+  | getOrSetDefault (r sty : Nat)
+
+def MOp.apply (m : TMap) : MOp → TMap
+  | .write k key v => MapRes.write m k key v
+  | .read k key => (MapRes.read m k key).1
+  | .check k key s => (MapRes.check m k key s).1
+  | .set r d => MapRes.set m r d
+  | .getOrSetDefault r sty => (MapRes.getOrSetDefault m r sty).1
+
+def run (m : TMap) (ops : List MOp) : TMap := ops.foldl MOp.apply m
+
+/-- The resource type (slot) an operation accesses. -/
+def MOp.slot : MOp → Nat
+  | .write k _ _ | .read k _ | .check k _ _ | .set k _ | .getOrSetDefault k _ => k
+
+/-- A directly stored state is a proper `HashMap` if it is a map. -/
+def MOp.WF : MOp → Prop
+  | .set _ d => d.WF
+  | _ => True
+
+/-- The effect of one operation on the abstract content of key type `k`: writes to `k` update it;
+a directly stored map for `k` replaces it; a directly stored state of another type, or
+`get_or_set_default` with another state type, on slot `k` *resets it to empty*; nothing else
+touches it. -/
+def MOp.absStep (k : Nat) (f : Nat → Option Int) : MOp → (Nat → Option Int)
+  | .write k' key v => if k' = k then upd f key v else f
+  | .read _ _ => f
+  | .check _ _ _ => f
+  | .set r d => if r = k then aget (d.asMap k) else f
+  | .getOrSetDefault r sty => if r = k ∧ sty ≠ 2 + k then emptyMap else f
+
+/-- Only the writes. -/
+def MOp.writeStep (k : Nat) (f : Nat → Option Int) : MOp → (Nat → Option Int)
+  | .write k' key v => if k' = k then upd f key v else f
+  | _ => f
+
+/-- Replay only the writes to key type `k` on a plain map. -/
+def replayWrites (k : Nat) (f : Nat → Option Int) (ops : List MOp) : Nat → Option Int :=
+  ops.foldl (MOp.writeStep k) f
+
+/-- The side condition: the operation does not put a state of a non-map type into slot `k`
+(no direct `set` on slot `k`, no `get_or_set_default` on slot `k` with another state type). -/
+def MOp.KeepsMap (k : Nat) : MOp → Prop
+  | .set r _ => r ≠ k
+  | .getOrSetDefault r sty => r = k → sty = 2 + k
+  | _ => True
+
+theorem WF.apply {m : TMap} (h : WF m) (op : MOp) (hop : op.WF) : WF (op.apply m) := by
+  cases op with
+  | write k key v => exact h.write k key v
+  | read k key => exact h.read k key
+  | check k key s => exact h.read k key
+  | set r d => exact h.set r d hop
+  | getOrSetDefault r sty => exact h.getOrSetDefault r sty
+
+theorem WF.run {m : TMap} (h : WF m) (ops : List MOp) (hops : ∀ op ∈ ops, op.WF) :
+    WF (run m ops) := by
+  induction ops generalizing m with
+  | nil => exact h
+  | cons op ops ih =>
+    exact ih (h.apply op (hops op List.mem_cons_self))
+      (fun o ho => hops o (List.mem_cons_of_mem _ ho))
+
+end MapRes
+
+theorem C14_absMap_write_self (m : TMap) (h : WF m) (k key : Nat) (v : Option Int) :
+    absMap (write m k key v) k = upd (absMap m k) key v := by
+  funext x
+  simp only [absMap, upd, read_snd, slotMap_write_self, aget_writeMap _ (h.slot k)]
+
+theorem C14_absMap_write_some_self (m : TMap) (k key : Nat) (x : Int) :
+    absMap (write m k key (some x)) k = upd (absMap m k) key (some x) := by
+  funext y
+  simp only [absMap, upd, read_snd, slotMap_write_self, aget_writeMap_some]
+
+theorem C14_absMap_write_other (m : TMap) (k k' key : Nat) (v : Option Int) (hne : k' ≠ k) :
+    absMap (write m k key v) k' = absMap m k' := by
+  funext x
+  exact (C14_write_isolated m k k' key v (Ne.symm hne)).2.2 x
+
+/-- An operation on another slot does not change the abstract content of `k`. -/
+theorem C14_absMap_apply_other (m : TMap) (op : MOp) (k : Nat) (hne : op.slot ≠ k) :
+    absMap (op.apply m) k = absMap m k := by
+  funext x
+  cases op with
+  | write k' key v => exact (C14_write_isolated m k' k key v hne).2.2 x
+  | read k' key => exact (C14_read_isolated m k' k key hne).2.2 x
+  | check k' key s => exact (C14_read_isolated m k' k key hne).2.2 x
+  | set r d => exact (C14_set_isolated m r k d hne).2.2 x
+  | getOrSetDefault r sty => exact (C14_getOrSetDefault_isolated m r k sty hne).2.2 x
+
+/-- Directly storing a map for `k` through the resource state: reads see it. -/
+theorem C14_absMap_set_map (m : TMap) (k : Nat) (mp : List (Nat × Int)) :
+    absMap (set m k (.map k mp)) k = aget mp := by
+  rw [absMap_eq, slotMap_set_self]; simp [Dyn.asMap]
+
+/-- Violating the side condition (1): storing a state of another type in slot `k` resets the map
+of `k` to empty. -/
+theorem C14_absMap_set_nonmap (m : TMap) (k : Nat) (d : Dyn) (hty : d.ty ≠ 2 + k) :
+    absMap (set m k d) k = emptyMap := by
+  rw [absMap_eq, slotMap_set_self, Dyn.asMap_of_ty_ne hty]; rfl
+
+/-- Violating the side condition (2): `get_or_set_default` on slot `k` with another state type
+resets the map of `k` to empty (whatever was stored). -/
+theorem C14_absMap_getOrSetDefault_nonmap (m : TMap) (k sty : Nat) (hty : sty ≠ 2 + k) :
+    absMap (getOrSetDefault m k sty).1 k = emptyMap := by
+  have ha : aget (getOrSetDefault m k sty).1 k = some (getOrSetDefault m k sty).2 := by
+    rw [aget_getOrSetDefault]; simp
+  rw [absMap_eq, slotMap_of_ty_ne ha (by rw [getOrSetDefault_snd_ty]; exact hty)]; rfl
+
+/-- … and the stored map really is gone: the slot then holds the default of the other type. -/
+theorem C14_getOrSetDefault_nonmap_replaces (m : TMap) (k sty : Nat) (mp : List (Nat × Int))
+    (hm : getBoxed m k = some (.map k mp)) (hty : sty ≠ 2 + k) :
+    getBoxed (getOrSetDefault m k sty).1 k = some (Dyn.default sty) := by
+  have hg : get m k sty = none := by
+    rw [get_eq_none_iff]
+    intro d hd
+    rw [show aget m k = some (.map k mp) from hm] at hd
+    cases hd
+    exact Ne.symm hty
+  exact (C14_getOrSetDefault_default m k sty hg).2.2.1
+
+/-- `get_or_set_default` with the map type keeps the content. -/
+theorem C14_absMap_getOrSetDefault_map (m : TMap) (k : Nat) :
+    absMap (getOrSetDefault m k (2 + k)).1 k = absMap m k := by
+  have ha : aget (getOrSetDefault m k (2 + k)).1 k = some (.map k (slotMap m k)) := by
+    rw [aget_getOrSetDefault, getOrSetDefault_map_snd]; simp
+  rw [absMap_eq, absMap_eq, slotMap_of_aget ha]
+
+/-- One step of the refinement, no side condition: every operation acts on the abstract content of
+`k` as `absStep` says. -/
+theorem C14_absMap_apply (m : TMap) (h : WF m) (op : MOp) (k : Nat) :
+    absMap (op.apply m) k = op.absStep k (absMap m k) := by
+  by_cases hs : op.slot = k
+  · cases op with
+    | write k' key v =>
+      simp only [MOp.slot] at hs; subst hs
+      simp only [MOp.apply, MOp.absStep, if_true]
+      exact C14_absMap_write_self m h k' key v
+    | read k' key =>
+      simp only [MOp.slot] at hs; subst hs
+      funext x; exact C14_read_read_same m k' key x
+    | check k' key s =>
+      simp only [MOp.slot] at hs; subst hs
+      funext x; exact C14_read_read_same m k' key x
+    | set r d =>
+      simp only [MOp.slot] at hs; subst hs
+      simp only [MOp.apply, MOp.absStep, if_true]
+      rw [absMap_eq, slotMap_set_self]
+    | getOrSetDefault r sty =>
+      simp only [MOp.slot] at hs; subst hs
+      simp only [MOp.apply, MOp.absStep, true_and]
+      by_cases hty : sty = 2 + r
+      · subst hty; simp only [ne_eq, not_true_eq_false, if_false]
+        exact C14_absMap_getOrSetDefault_map m r
+      · rw [if_pos hty]; exact C14_absMap_getOrSetDefault_nonmap m r sty hty
+  · rw [C14_absMap_apply_other m op k hs]
+    cases op <;> simp only [MOp.slot] at hs <;> simp [MOp.absStep, hs]
+
+/-- The refinement for arbitrary operation sequences, no side condition: reading key type `k`
+after the sequence equals folding `absStep` over it on a plain map. -/
+theorem C14_run_refines (m : TMap) (h : WF m) (ops : List MOp) (hops : ∀ op ∈ ops, op.WF)
+    (k : Nat) : absMap (run m ops) k = ops.foldl (MOp.absStep k) (absMap m k) := by
+  induction ops generalizing m with
+  | nil => rfl
+  | cons op ops ih =>
+    simp only [run, List.foldl_cons]
+    rw [← C14_absMap_apply m h op k]
+    exact ih (op.apply m) (h.apply op (hops op List.mem_cons_self))
+      (fun o ho => hops o (List.mem_cons_of_mem _ ho))
+
+/-- Under the side condition an operation acts on `k` like the writes alone. -/
+theorem C14_absStep_of_keepsMap (k : Nat) (f : Nat → Option Int) (op : MOp) (hk : op.KeepsMap k) :
+    op.absStep k f = op.writeStep k f := by
+  cases op with
+  | write k' key v => rfl
+  | read k' key => rfl
+  | check k' key s => rfl
+  | set r d => simp only [MOp.KeepsMap] at hk; simp [MOp.absStep, MOp.writeStep, hk]
+  | getOrSetDefault r sty =>
+    simp only [MOp.KeepsMap] at hk
+    simp only [MOp.absStep, MOp.writeStep]
+    rw [if_neg]
+    rintro ⟨h1, h2⟩; exact h2 (hk h1)
+
+/-- The refinement: provided no `set` and no `get_or_set_default` with a non-map state type hits
+slot `k`, reading key type `k` after an arbitrary sequence of operations (on any key types and
+resource types) equals replaying only the writes to `k` on a plain `Nat → Option Int` map. -/
+theorem C14_run_refines_writes (m : TMap) (h : WF m) (ops : List MOp) (hops : ∀ op ∈ ops, op.WF)
+    (k : Nat) (hk : ∀ op ∈ ops, op.KeepsMap k) :
+    absMap (run m ops) k = replayWrites k (absMap m k) ops := by
+  rw [C14_run_refines m h ops hops k, replayWrites]
+  generalize absMap m k = f
+  induction ops generalizing f with
+  | nil => rfl
+  | cons op ops ih =>
+    simp only [List.foldl_cons]
+    rw [C14_absStep_of_keepsMap k f op (hk op List.mem_cons_self)]
+    exact ih (fun o ho => hops o (List.mem_cons_of_mem _ ho))
+      (fun o ho => hk o (List.mem_cons_of_mem _ ho)) _
+
+/-- Reading a key after a sequence that keeps the map: the value most recently written to that
+key in the sequence, or the initial one if there was no such write. -/
+theorem C14_read_after_run (m : TMap) (h : WF m) (ops : List MOp) (hops : ∀ op ∈ ops, op.WF)
+    (k key : Nat) (hk : ∀ op ∈ ops, op.KeepsMap k) :
+    (read (run m ops) k key).2 = replayWrites k (absMap m k) ops key :=
+  congrFun (C14_run_refines_writes m h ops hops k hk) key
+
+/-- Most-recent-write, spelled out: after `… ++ [write k key v] ++ later`, where nothing in `later`
+writes to `(k, key)` and the side condition holds, reading `(k, key)` yields `v`. -/
+theorem C14_most_recent_write (m : TMap) (h : WF m) (before later : List MOp) (k key : Nat)
+    (v : Option Int)
+    (hb : ∀ op ∈ before, op.WF) (hl : ∀ op ∈ later, op.WF)
+    (hk : ∀ op ∈ later, op.KeepsMap k)
+    (hnw : ∀ v', MOp.write k key v' ∉ later) :
+    (read (run m (before ++ [.write k key v] ++ later)) k key).2 = v := by
+  have hrun : run m (before ++ [.write k key v] ++ later) =
+      run (write (run m before) k key v) later := by
+    simp [run, List.foldl_append, MOp.apply]
+  have hwf1 : WF (run m before) := h.run before hb
+  have hwf2 : WF (write (run m before) k key v) := hwf1.write k key v
+  rw [hrun, C14_read_after_run _ hwf2 later hl k key hk]
+  have hinit : absMap (write (run m before) k key v) k key = v :=
+    C14_read_write_corrected _ hwf1 k key v
+  revert hinit
+  generalize absMap (write (run m before) k key v) k = f
+  intro hinit
+  clear hrun hwf2 hl hk
+  induction later generalizing f with
+  | nil => exact hinit
+  | cons op ops ih =>
+    simp only [replayWrites, List.foldl_cons]
+    apply ih (fun v' hv => hnw v' (List.mem_cons_of_mem _ hv))
+    cases op with
+    | write k' key' v' =>
+      simp only [MOp.writeStep]
+      split
+      · rename_i hkk; subst hkk
+        have : key' ≠ key := by
+          rintro rfl; exact hnw v' List.mem_cons_self
+        simp [upd, this, hinit]
+      · exact hinit
+    | read _ _ => exact hinit
+    | check _ _ _ => exact hinit
+    | set _ _ => exact hinit
+    | getOrSetDefault _ _ => exact hinit
+
+/-! ### non-vacuity -/
+
+private def demoOps : List MOp :=
+  [.write 0 1 (some 5), .write 1 1 (some 7), .set 9 (.int 3), .read 2 4, .write 0 2 (some 6),
+   .getOrSetDefault 8 1, .write 0 1 none, .getOrSetDefault 0 2, .check 1 1 none,
+   .write 1 1 (some 8)]
+
+example : run [] demoOps =
+    [(0, .map 0 [(2, 6)]), (1, .map 1 [(1, 8)]), (9, .int 3), (2, .map 2 []), (8, .str "")] := by
+  decide
+example : (read (run [] demoOps) 0 1).2 = none ∧ (read (run [] demoOps) 0 2).2 = some 6 ∧
+    (read (run [] demoOps) 1 1).2 = some 8 := by decide
+example : ∀ op ∈ demoOps, op.KeepsMap 0 := by
+  intro op hop; simp [demoOps] at hop
+  rcases hop with rfl | rfl | rfl | rfl | rfl | rfl | rfl | rfl | rfl | rfl <;> simp [MOp.KeepsMap]
+example : replayWrites 0 emptyMap demoOps 2 = some 6 ∧ replayWrites 0 emptyMap demoOps 1 = none := by
+  decide
+/-- violating the side condition: the map of key type 0 is gone -/
+example : (read (getOrSetDefault (write [] 0 1 (some 5)) 0 0).1 0 1).2 = none ∧
+    (read (set (write [] 0 1 (some 5)) 0 (.str "x")) 0 1).2 = none ∧
+    (read (write [] 0 1 (some 5)) 0 1).2 = some 5 := by decide
+/-- same key value under two key types: no aliasing -/
+example : (read (write (write [] 0 1 (some 5)) 1 1 (some 7)) 0 1).2 = some 5 := by decide
+example : getOrSetDefault [(3, .int 4)] 3 0 = ([(3, .int 4)], .int 4) ∧
+    getOrSetDefault [(3, .int 4)] 3 1 = ([(3, .str "")], .str "") := by decide
+example : (check (write [] 0 1 (some 5)) 0 1 (some 5)).2 = true ∧
+    (check (write [] 0 1 (some 5)) 0 1 none).2 = false := by decide
+
 end PieModel
